@@ -14,7 +14,7 @@ def fill(register, pending):
     register('C15', 'fault_enumeration',
              'for seed-sampled (operation, scenario) pairs every callback invocation index k=1..K is injected exhaustively '
              '(one fault per execution) and judged by exception identity, refcount ledger, guard/lock residue and a fault-free '
-             're-execution; the pairs are sampled, so the property-level claim is exploration with exhaustive fault positions per pair',
+             're-execution, plus the calling thread\'s recursion counters (thread-state ledger), a success-path ledger, wrong leaf counts over seven kinds of producer and malformed flatten results through every entry point; the pairs are sampled, so the property-level claim is exploration with exhaustive fault positions per pair',
              'trusts CPython refcount/gc introspection and the instrumented class universe; GIL build only; '
              'single-process fork-per-run isolation',
              'deterministic simulation: seeded scenario generation + exhaustive k-th-callback fault injection with refcount-ledger oracle',
@@ -23,7 +23,7 @@ def fill(register, pending):
              'for seed-sampled (traversal, tree) pairs every callback index k is combined with every interference in '
              '{delete-front, delete-back, clear, append, replace} x {containers on/near the traversal path} plus re-entry and gc, '
              'on the plain-semantics build (fatal signals) and on an ASan+UBSan build (reports); deterministic sweeps of nesting '
-             'depth L-1..L+2 for every node kind (+ self-reference) and seeded argument-confusion calls over every entry point',
+             'depth L-1..L+2 for every node kind (+ self-reference, composed treespecs deeper than any tree, wide nodes), seeded argument-confusion calls over every entry point incl. the Python layer, and stored-state corruption (flipped fields / torn node lists / flipped bytes of pickled treespecs)',
              'memory safety is judged by process survival and sanitizer silence; ASan main-thread stack limit raised to 512 MiB '
              'because instrumented frames are ~10x larger; GIL build only',
              'deterministic simulation: exhaustive k-th-callback re-entrant mutation / re-entry injection under sanitizers, fork-per-run crash isolation',
@@ -47,7 +47,7 @@ def fill(register, pending):
              'DESIGN.md section 4 (C12)', 'checks/c12_registry.py')
     register('C17', 'exploration',
              'seeded search over interleavings of 2-4 real threads at callback / Python-line / lock granularity (sticky, uniform, '
-             'PCT d<=3, single-switch sweeps) across six scenario templates; oracles: per-operation equality with the solo '
+             'PCT d<=3, single-switch sweeps, scripted two-switch sweeps) across eleven scenario templates; oracles: per-operation equality with the solo '
              'reference, exactly-once racing registration, old-or-new per node for flatten overlapping re-registration, '
              'exactly-once delivery of a shared iterator, deterministic deadlock detection through the instrumented engine '
              'rwlocks and the simulated registry lock, quiescent registry/guard/lock invariants',
@@ -78,7 +78,7 @@ def fill(register, pending):
              'a real fresh interpreter replaying the same log, a log with one entry missing, or one entry in another namespace; '
              'oracle O1 (==, hash, repr, paths, accessors, entries, children recursively, counts, unflatten incl. dict key order and '
              'which registration rebuilds each node, equality with a fresh flatten there) or O2 (load raises, process stays healthy)',
-             'the "for every treespec" part is sampled; re-binding to a different registration and corrupted bytes are outside the '
-             'statement; hashes are compared within one interpreter only',
+             'the "for every treespec" part is sampled; re-binding to a different registration is outside the statement; what corrupted '
+             'bytes mean is not asserted here (that they cannot crash the interpreter is checked by C16); hashes are compared within one interpreter only',
              'deterministic simulation: crash/restart of the loading party with a replayed (possibly drifted) registration log; only pickled bytes survive',
              'DESIGN.md section 4 (C11)', 'checks/c11_restart.py')
